@@ -327,3 +327,261 @@ def check_queue_order(run, res, want=('C14', 'C15')):
     if 'C15' in want and ob.deferred is not None and ob.model_d is not None and ob.deferred != ob.model_d:
       res.violate('defer-contents', {'op': k}, 'after op#%d %s the deferred queue holds %s, the model %s' % (i, ob.op, ob.deferred, ob.model_d))
       return
+
+
+# ------------------------------------------------------------------ C19: spy
+class SpyModel(object):
+  """expected spy lines computed from the handler-side records (closure-spied builds:
+  every handler invocation leaves a 'call' record)"""
+
+  def __init__(self):
+    self.deferred = []     # signal names, oldest first (mirrors chart.defer_queue)
+
+  def lines(self, recs, cur_sig=None):
+    out = []
+    pending = None
+    for what, a, sig, extra in recs:
+      if what == 'call':
+        if pending:
+          out.append(pending)
+          pending = None
+        out.append('%s:%s' % (sig, a))
+      elif what == 'hook':
+        pending = '%s:%s:HOOK' % (sig, a)
+      elif what == 'fx':
+        op = a
+        if op == 'post_fifo':
+          out.append('POST_FIFO:%s' % sig)
+        elif op == 'post_lifo':
+          out.append('POST_LIFO:%s' % sig)
+        elif op == 'defer':
+          out.append('POST_DEFERRED:%s' % cur_sig)
+          self.deferred.append(cur_sig)
+        elif op == 'recall':
+          if self.deferred:
+            s = self.deferred.pop(0)
+            out.append('RECALL:%s' % s)
+            out.append('POST_FIFO:%s' % s)
+        elif op == 'scribble':
+          out.append(extra_text(extra, sig))
+      elif what == 'dispatch':
+        cur_sig = sig
+    if pending:
+      out.append(pending)
+    return out
+
+
+def extra_text(extra, sig):
+  return sig if sig is not None else str(extra)
+
+
+def _cmp_lines(res, rule, sig, head, exp, got):
+  if exp == got:
+    return True
+  d = _first_diff([(x,) for x in exp], [(x,) for x in got])
+  res.violate(rule, dict(sig, what=_line_kind(exp, got, d)),
+              '%s: first difference at line %s\n expected %s\n observed %s' % (head, d, exp[-40:], got[-40:]))
+  return False
+
+
+def check_spy(run, res):
+  """per step: spy_rtc() == what the handlers saw (+ documented markers); full spy ==
+  concatenation of the step logs, truncated to the ring size.  Ground truth = the 'call'
+  records the undecorated handler bodies leave (closure-spied builds)."""
+  if run.build.kind != 'closure-spied' or run.host == 'plain':
+    return
+  from sim import seams
+  H = seams.mods['hsm'].HsmEventProcessor
+  SPY, RTC = H.SPY_RING_BUFFER_SIZE, H.RTC_RING_BUFFER_SIZE
+  sm = SpyModel()
+  host = run.host
+  for i, ob in enumerate(run.steps):
+    k = ob.op[0]
+    if ob.exc is not None or not ob.instrumented or ob.spy_rtc is None:
+      return
+    head = 'op#%d %s host=%s' % (i, ob.op, host)
+    if k == 'start':
+      pre, rest, seen = [], [], False
+      for r in ob.recs:
+        if r[0] == 'dispatch':
+          seen = True
+        (rest if seen else pre).append(r)
+      log = (['START'] + sm.lines(pre))
+      if len(log) > RTC:
+        return    # the per-step ring truncated the start log: not modelled
+      if host == 'instrumented':
+        if not _cmp_lines(res, 'spy-rtc', {'op': 'start'}, head, log, ob.spy_rtc):
+          return
+        if not _cmp_lines(res, 'spy-full', {'op': 'start'}, head, log[-SPY:], ob.spy_full):
+          return
+      elif host == 'queued':
+        refl = '<- Queued:(%d) Deferred:(%d)' % (len(ob.queue or []), len(ob.deferred or []))
+        if not _cmp_lines(res, 'spy-rtc', {'op': 'start'}, head, log + [refl], ob.spy_rtc):
+          return
+        if not _cmp_lines(res, 'spy-full', {'op': 'start'}, head, (log + [refl])[-SPY:], ob.spy_full):
+          return
+      else:
+        # active object: its thread may already have taken steps; compare the prefix
+        full = ob.spy_full or []
+        if len(full) < SPY and not _cmp_lines(res, 'spy-full', {'op': 'start'}, head, log, full[:len(log)]):
+          return
+        sm.lines(rest)
+      continue
+    if k == 'defer':
+      sm.deferred.append(ob.op[1])
+      continue
+    if k == 'recall':
+      if sm.deferred:
+        sm.deferred.pop(0)
+      continue
+    if k not in ('ev', 'rtc', 'circuit') or ob.pred is None:
+      continue
+    if host == 'instrumented':
+      log = sm.lines(list(ob.recs), ob.op[1])
+      if len(log) > RTC:
+        return
+      if not _cmp_lines(res, 'spy-rtc', {'op': k}, head, log, ob.spy_rtc):
+        return
+      if not _cmp_lines(res, 'spy-full', {'op': k}, head, (ob.spy_full_before + log)[-SPY:], ob.spy_full):
+        return
+      continue
+    segs = [sg for sg in segments(ob) if sg[0] is not None]
+    preds = ob.pred.get('steps') or []
+    if len(segs) != len(preds) or any(p is None for p in preds):
+      return     # a different number of steps than predicted: C14's subject
+    added, last = [], None
+    for (m, recs), p in zip(segs, preds):
+      ln = sm.lines([m] + recs)
+      if len(ln) + 1 > RTC:
+        return
+      last = ln + ['<- Queued:(%d) Deferred:(%d)' % (p['q_after'], p['d_after'])]
+      added.extend(last)
+    if k == 'rtc' and not segs:
+      last = ['<- Queued:(%d) Deferred:(%d)' % (len(ob.model_q or []), len(ob.model_d or []))]
+      added = list(last)
+    if host == 'queued' and last is not None:
+      if not _cmp_lines(res, 'spy-rtc', {'op': k}, head, last, ob.spy_rtc):
+        return
+    if ob.spy_full_before is not None:
+      if not _cmp_lines(res, 'spy-full', {'op': k}, head, (ob.spy_full_before + added)[-SPY:], ob.spy_full):
+        return
+
+
+def _line_kind(exp, got, d):
+  if d is None:
+    return None
+  e = exp[d] if d < len(exp) else None
+  g = got[d] if d < len(got) else None
+  def kind(x):
+    if x is None:
+      return 'missing'
+    if x.startswith('<- Queued'):
+      return 'reflection'
+    if x.endswith(':HOOK'):
+      return 'hook'
+    for p in ('POST_FIFO', 'POST_LIFO', 'POST_DEFERRED', 'RECALL', 'START'):
+      if x.startswith(p):
+        return p.lower()
+    return x.split(':')[0] if x.split(':')[0].endswith('_SIGNAL') else 'user-signal'
+  return '%s/%s' % (kind(e), kind(g))
+
+
+# ------------------------------------------------------------------ C20: trace
+def check_trace(run, res):
+  if run.host == 'plain' or run.build.kind == 'closure':
+    return
+  from sim import seams
+  TRC = seams.mods['hsm'].HsmEventProcessor.TRC_RING_BUFFER_SIZE
+  for i, ob in enumerate(run.steps):
+    k = ob.op[0]
+    if ob.exc is not None:
+      if k == 'read':
+        res.violate('trace-not-printable', {'exc': ob.exc}, 'op#%d reading spy()/trace() raised %s\n%s' % (i, ob.exc, ob.tb))
+      return
+    if not ob.instrumented or ob.trace is None or ob.trace_before is None:
+      if k == 'start' and ob.instrumented and ob.trace is not None:
+        pass
+      else:
+        continue
+    if k == 'start':
+      p = ob.pred
+      if p is None:
+        return
+      tr = [t[:3] for t in ob.trace]
+      start_state = ob.op[1]
+      first_ok = tr[:1] in ([('top', None, p['new'])], [('top', None, start_state)])
+      if not first_ok:
+        res.violate('trace-start', {}, 'after start_at(%s) the trace is %s, expected one record top -> %s' % (start_state, tr, p['new']))
+        return
+      # steps the active object already took
+      exp = tr[:1]
+      for s in (p.get('steps') or []):
+        if s and s['kind'] == 'trans':
+          exp.append((s['prev'], s['sig'], s['new']))
+      if tr != exp[-TRC:]:
+        res.violate('trace-step', {'kind': 'after-start'}, 'after start_at the trace is %s, expected %s' % (tr, exp))
+        return
+      continue
+    if k in ('ev', 'rtc', 'circuit') and ob.pred is not None:
+      preds = ob.pred.get('steps') if 'steps' in ob.pred else [ob.pred]
+      if any(p is None for p in preds):
+        return
+      exp_new = [(p['prev'], p['sig'], p['new']) for p in preds if p['kind'] == 'trans']
+      before = [t[:3] for t in ob.trace_before]
+      after = [t[:3] for t in ob.trace]
+      exp = (before + exp_new)[-TRC:]
+      if after != exp:
+        kinds = sorted(set(p['kind'] for p in preds))
+        grew = len(after) - len(before)
+        res.violate('trace-step', {'kind': '+'.join(kinds), 'grew': 'more' if len(after) > len(exp) else ('less' if len(after) < len(exp) else 'same')},
+                    'op#%d %s (%s): trace went from %d to %d records; new records expected %s; trace tail %s' % (
+                      i, ob.op, kinds, len(before), len(after), exp_new, after[-3:]))
+        return
+      if any(t[3] is None for t in ob.trace):
+        res.violate('trace-record-without-time', {}, 'op#%d %s: a trace record has no timestamp: %s' % (i, ob.op, [t for t in ob.trace if t[3] is None]))
+        return
+    elif ob.trace_before is not None and ob.trace is not None:
+      if [t[:3] for t in ob.trace_before] != [t[:3] for t in ob.trace]:
+        res.violate('trace-step', {'kind': 'non-step-op'}, 'op#%d %s changed the trace' % (i, ob.op))
+        return
+
+
+# ------------------------------------------------------------------ C21: live output
+def check_live(run, res):
+  """every spy line and every new trace record is handed to the callback once, in order
+  (queued charts call the callbacks inline, active objects through the writer thread)"""
+  sc = run.sc
+  if run.host not in ('queued', 'ao', 'factory'):
+    return
+  from sim import seams
+  H = seams.mods['hsm'].HsmEventProcessor
+  SPY, TRC = H.SPY_RING_BUFFER_SIZE, H.TRC_RING_BUFFER_SIZE
+  for i, ob in enumerate(run.steps):
+    k = ob.op[0]
+    if ob.exc is not None:
+      return
+    if not ob.instrumented or k not in ('start', 'ev', 'rtc', 'circuit'):
+      continue
+    head = 'op#%d %s host=%s' % (i, ob.op, run.host)
+    if sc.get('live_spy') and ob.spy_full is not None and len(ob.spy_full) < SPY:
+      before = ob.spy_full_before if (k != 'start' and ob.spy_full_before is not None) else []
+      new = ob.spy_full[len(before):]
+      if ob.live_spy != new:
+        d = _first_diff([(x,) for x in new], [(x,) for x in ob.live_spy])
+        res.violate('live-spy', {'op': k, 'got': 'fewer' if len(ob.live_spy) < len(new) else ('more' if len(ob.live_spy) > len(new) else 'different')},
+                    '%s: the steps produced the spy lines %s but the live spy callback received %s (first difference at %s)' % (head, new, ob.live_spy, d))
+        return
+    if sc.get('live_trace') and ob.trace is not None and len(ob.trace) < TRC:
+      before = ob.trace_before if (k != 'start' and ob.trace_before is not None) else []
+      new = ob.trace[len(before):]
+      if len(ob.live_trace) != len(new):
+        res.violate('live-trace', {'op': 'start' if k == 'start' else 'step', 'got': 'fewer' if len(ob.live_trace) < len(new) else 'more'},
+                    '%s: %d new trace record(s) %s but the live trace callback was called %d time(s): %s' % (
+                      head, len(new), [t[:3] for t in new], len(ob.live_trace), ob.live_trace))
+        return
+      for t, line in zip(new, ob.live_trace):
+        want = '%s->%s' % (t[0], t[2])
+        if want not in line:
+          res.violate('live-trace', {'op': 'start' if k == 'start' else 'step', 'got': 'wrong-line'},
+                      '%s: live trace line %r does not describe record %s' % (head, line, t[:3]))
+          return
